@@ -139,7 +139,17 @@ def data_program(rnd):
         name = "%s%d" % ({"struct": "Rec", "enum": "Opt", "distinct": "Num"}[k], i)
         if k == "struct":
             fields = [("f%d" % j, rnd.choice(prim)) for j in range(rnd.randint(1, 5))]
-            defs.append("%s :: struct { %s };" % (name, ", ".join("%s: %s" % f for f in fields)))
+            # members that are themselves compound types: earlier records, arrays (their type ids
+            # and reflection rows are handed out while the struct's own id is computed)
+            earlier = [t for t in types if t[1] == "struct"]
+            for j in range(rnd.randint(0, 3)):
+                if earlier and rnd.random() < 0.6:
+                    fields.append(("n%d" % j, "@" + rnd.choice(earlier)[0]))
+                else:
+                    fields.append(("a%d" % j, "[%d]%s" % (rnd.randint(1, 4), rnd.choice(["u8", "i32", "i64", "f64"]))))
+            rnd.shuffle(fields)
+            defs.append("%s :: struct { %s };" % (name, ", ".join(
+                "%s: %s" % (f, t[1:] if t.startswith("@") else t) for f, t in fields)))
             types.append((name, k, fields))
         elif k == "enum":
             vs = []
@@ -152,7 +162,24 @@ def data_program(rnd):
             t = rnd.choice(["i32", "u8", "i64", "f64"])
             defs.append("%s :: distinct %s;" % (name, t))
             types.append((name, k, t))
+    by_name = {t[0]: t for t in types}
+
+    def value(t):
+        if t.startswith("@"):
+            rec = by_name[t[1:]]
+            return "%s.{ %s }" % (rec[0], ", ".join("%s = %s" % (f, value(ft)) for f, ft in rec[2]))
+        if t.startswith("["):
+            n, et = t[1:].split("]")
+            return "%s.[%s]" % (et, ", ".join(lit[et]() for _ in range(int(n))))
+        return lit[t]()
+
     stmts = []
+    # `type` values: comparing and passing types forces their type ids
+    recs = [t[0] for t in types if t[1] == "struct"]
+    if recs and rnd.random() < 0.6:
+        defs.append("pick_ty :: () -> type { %s }" % rnd.choice(recs))
+        defs.append("is_rec :: (t: type) -> bool { %s }" % " || ".join("t == %s" % r for r in recs))
+        stmts.append("core.println(is_rec(pick_ty()));")
     for i in range(rnd.randint(3, 10)):
         r = rnd.random()
         if r < 0.35:
@@ -161,7 +188,7 @@ def data_program(rnd):
         elif r < 0.8 and types:
             name, k, info = rnd.choice(types)
             if k == "struct":
-                stmts.append("core.println(%s.{ %s });" % (name, ", ".join("%s = %s" % (f, lit[t]()) for f, t in info)))
+                stmts.append("core.println(%s.{ %s });" % (name, ", ".join("%s = %s" % (f, value(t)) for f, t in info)))
             elif k == "enum":
                 v, t = rnd.choice(info)
                 stmts.append("core.println(%s.%s%s);" % (name, v, "" if t is None else ".(%s)" % lit[t]()))
@@ -171,7 +198,7 @@ def data_program(rnd):
             t = rnd.choice(["i32", "u8", "f64", "str"])
             stmts.append("core.println(%s.[%s]);" % (t, ", ".join(lit[t]() for _ in range(rnd.randint(1, 4)))))
     files = {}
-    side = rnd.random() < 0.5 and len(defs) > 1
+    side = False  # (records now refer to each other and to helper functions; keep one file)
     if side:
         cut = rnd.randint(1, len(defs) - 1)
         files["types.capy"] = "\n".join(defs[cut:]) + "\n"
@@ -236,7 +263,7 @@ def make_program(rnd):
     if r < 0.30:
         files, label = comptime_agg_program(rnd)
         return files, "main.capy", label, False
-    if r < 0.42:
+    if r < 0.45:
         files, label = data_program(rnd)
         return files, "main.capy", label, True
     prog = gen.generate(rnd)
